@@ -86,7 +86,7 @@ class Evaluator:
         for r in recs:
             if handle in r["changed"]:
                 dump = r["changed"][handle]
-        out = {"status": last["status"], "exc": last.get("exc"), "msg": last.get("msg"),
+        out = {"status": last["status"], "exc": last.get("exc"), "mro": last.get("mro"), "msg": last.get("msg"),
                "text": last.get("text"), "dump": dump,
                "intermediate_ok": all(r["status"] in ("ok",) for r in recs[:-1])}
         self.memo[key] = out
@@ -251,15 +251,15 @@ class Evaluator:
             if kind == "read":
                 rops = [norm_op(op, ren)]
                 handle = "x"
-                mine = {"status": st, "exc": rec.get("exc"), "dump": cur.get(op["out"]) if st == "ok" else None}
+                mine = {"status": st, "exc": rec.get("exc"), "mro": rec.get("mro"), "dump": cur.get(op["out"]) if st == "ok" else None}
             elif kind == "edit":
                 rops = recipe[op["in"]] if st in ("ok", "raised") else recipe[op["in"]] + [norm_op(op, ren)]
                 handle = "x"
-                mine = {"status": st, "exc": rec.get("exc"), "dump": cur.get(op["in"])}
+                mine = {"status": st, "exc": rec.get("exc"), "mro": rec.get("mro"), "dump": cur.get(op["in"])}
             else:
                 rops = recipe[op["in"]] + [norm_op(op, ren)]
                 handle = "x"
-                mine = {"status": st, "exc": rec.get("exc"), "text": rec.get("text")}
+                mine = {"status": st, "exc": rec.get("exc"), "mro": rec.get("mro"), "text": rec.get("text")}
             info["judged"] += 1
             self.stats.inc("judged_" + kind)
             key = (op.get("cls", kind), prev_on_obj.get(slot, ("none", "-")) if slot != "fresh" else ("fresh", "-"), st)
@@ -273,8 +273,13 @@ class Evaluator:
             info["ref_digests"].append(canon.digest(json.dumps(r, sort_keys=True)))
 
             def same(a, b):
-                if a["status"] != b["status"] or a.get("exc") != b.get("exc"):
+                if a["status"] != b["status"]:
                     return False
+                if a.get("exc") != b.get("exc"):
+                    # which exception a failing call raises is not promised; only unrelated classes (neither derives
+                    # from the other) for the same operation count as a different outcome
+                    if not (a.get("exc") in (b.get("mro") or []) or b.get("exc") in (a.get("mro") or [])):
+                        return False
                 if kind == "write":
                     return a.get("text") == b.get("text")
                 return a.get("dump") == b.get("dump")
